@@ -284,7 +284,13 @@ func negotiateFeatures(ctx context.Context, s *Session, first, ws bool, features
 
 		// If we negotiated a required feature or a stream restart is required
 		// we're done with this feature set.
-		if rw != nil || data.req {
+		if rw != nil {
+			break
+		}
+		// As the initiator do not stop after a required feature while the list
+		// holds other required features that we can negotiate: they are all
+		// mandatory-to-negotiate and which one we picked first is arbitrary.
+		if data.req && (server || !list.pendingRequired(s)) {
 			break
 		}
 	}
@@ -315,6 +321,21 @@ type streamFeaturesList struct {
 // features are met in the given state.
 func (l *streamFeaturesList) anyEligible(state SessionState) bool {
 	for _, v := range l.cache {
+		if state&v.feature.Necessary == v.feature.Necessary && state&v.feature.Prohibited == 0 {
+			return true
+		}
+	}
+	return false
+}
+
+// pendingRequired reports whether the list contains a required feature that
+// has not been negotiated yet and can be negotiated in the current state.
+func (l *streamFeaturesList) pendingRequired(s *Session) bool {
+	state := s.State()
+	for _, v := range l.cache {
+		if _, ok := s.negotiated[v.feature.Name.Space]; ok || !v.req || v.feature.Negotiate == nil {
+			continue
+		}
 		if state&v.feature.Necessary == v.feature.Necessary && state&v.feature.Prohibited == 0 {
 			return true
 		}
